@@ -238,3 +238,18 @@ package cryptoutils
 //@   trusted
 //@   ensures result != nil && icaoCurve(ref(result)) == 8
 //@   assigns nothing
+
+// Hash selection by object identifier (Go map keyed by the OID's text: abstracted). hashAlgOfOid names the crypto.Hash of an
+// identifier (3 SHA-1, 4 SHA-224, 5 SHA-256, 6 SHA-384, 7 SHA-512); unknown identifiers are errors. Trusted table lookup.
+//@ uf hashAlgOfOid(seq) int
+//@ func CryptoHashOidToAlg
+//@   trusted
+//@   ensures result1 == nil ==> result0 == hashAlgOfOid(oid) && 3 <= result0 && result0 <= 7
+//@   assigns nothing
+//@ func CryptoHashByOid
+//@   props C01 C12
+//@   ensures "hash-named-by-the-oid": result1 == nil ==> result0 === hashF(hashAlgOfOid(oid), data) && len(result0) == hashLen(hashAlgOfOid(oid)) && 3 <= hashAlgOfOid(oid) && hashAlgOfOid(oid) <= 7
+//@   ensures result1 != nil ==> result0 == nil
+//@   ensures fresh(result0)
+//@   assigns nothing
+//@   safety all
